@@ -187,6 +187,13 @@ class NormalTmpFileAssignmentLoader(BaseTmpFileAssignmentLoader):
         elif self.is_read_assignment():
             assert self.current_gene_info is not None
             assignment = ReadAssignment.deserialize(self.loader, self.current_gene_info)
+            if self.chr_record and assignment.exons:
+                # reads may extend beyond the gene region, keep the reference sequence covering them
+                region_start = min(self.current_gene_info.all_read_region_start, assignment.exons[0][0])
+                region_end = max(self.current_gene_info.all_read_region_end, assignment.exons[-1][1])
+                if region_start < self.current_gene_info.all_read_region_start or \
+                        region_end > self.current_gene_info.all_read_region_end:
+                    self.current_gene_info.set_reference_sequence(region_start, region_end, self.chr_record)
             self._read_id()
             return assignment
         else:
